@@ -438,7 +438,14 @@ def redispatch_targets(handler):
         while isinstance(v, ast.Attribute) and v.attr == "parent":
             depth += 1
             v = v.value
-        if not (isinstance(v, ast.Name) and v.id == "self") or depth == 0:
+        if not (isinstance(v, ast.Name) and v.id == "self"):
+            continue
+        if depth == 0:
+            # `self.print(printer, node.edit)`: the edit of the very node being handled goes back into this formatter's own
+            # protocol, whose Match/compound printing hands the node (still carrying that edit) to the same lookup again
+            if any(isinstance(a, ast.Attribute) and a.attr == "edit" and isinstance(a.value, ast.Name) and a.value.id in passthrough
+                   for a in c.args) and not any(k.arg == "with_edits" for k in c.keywords):
+                out.append(0)
             continue
         args = []
         for a in c.args:
